@@ -931,6 +931,8 @@ class Footnote(BlockToken):
                 else:
                     return None
             elif c == ']':
+                if start == -1:
+                    return None
                 label = string[start + 1:i]
                 if label.strip() != '':
                     return start, i + 1, label
